@@ -98,7 +98,9 @@ def analyse(res, prop, expected, open_f):
     for uid, e in ex.items():
         if e.get('has_vacuity_twin') and uid not in vac_hit:
             out['undecided'].append('%s: vacuity guard: the precondition of unit %s is contradictory (its `requires false` twin verified)' % (info['template'], uid))
-    if any(m.get('region') == 'guard' for m in linemap) and not guard_hit:
+    n_guards = sum(1 for idx, m in enumerate(linemap) if m.get('region') == 'guard' and 'proof fn' in text_lines[idx])
+    n_guard_hits = len(set(i['site']['line'] for i in res['issues'] if i['kind'] == 'verification' and (i.get('region') or '') == 'guard' and i.get('site')))
+    if n_guards and n_guard_hits < n_guards:
         out['undecided'].append('%s: shim consistency guard verified `false` -- the assumed axioms are inconsistent' % info['template'])
     # --- findings
     for uid, e in ex.items():
